@@ -453,7 +453,7 @@ func (g *Gen) ret(x *ssa.Return) {
 			if o := g.ob("ensures", invLabel(e, i), p, e.E.String()); len(e.Opaque) > 0 {
 				o.Opaque = e.Opaque
 			}
-			g.assume(g.curR, p)
+			g.assumeProved(g.curR, p)
 		}
 		g.frameObligations(env)
 	}
@@ -740,7 +740,7 @@ func (g *Gen) atAnchor(anchor string, env *TEnv) {
 				continue // clause mentions a program variable that is not defined on this path
 			}
 			g.ob("assert", invLabel(&Clause{Label: a.Label}, i), p, a.Anchor+": "+a.E.String())
-			g.assume(g.curR, p)
+			g.assumeProved(g.curR, p)
 		}
 	}
 }
@@ -920,7 +920,7 @@ func (g *Gen) intrinsic(in *ssa.Call, callee *ssa.Function, cc *ssa.CallCommon) 
 		}
 		c := g.term(cc.Args[0])
 		g.ob("assert", label, c, "verifhook.Assert")
-		g.assume(g.curR, c)
+		g.assumeProved(g.curR, c)
 	default:
 		if in != nil {
 			if tup, ok := in.Type().(*types.Tuple); ok {
